@@ -10,11 +10,11 @@ from flow import generate, judge
 from pygen import write_pkg
 from runner import Opts, run_many
 
-PYT = {"int": "int", "str": "str", "listint": "list[int]"}
+PYT = {"int": "int", "str": "str", "listint": "list[int]", "free": "positive number of entries"}
 MOD = "recmod"
 
 
-def docstring(style, params, res) -> str:
+def docstring(style, params, res, res2=None) -> str:
     L = ['    """Summary line.', ""]
     if style == "NUMPYDOC":
         if params:
@@ -23,7 +23,9 @@ def docstring(style, params, res) -> str:
                 L.append(f"    p{k + 1} : {PYT[p['doc']]}" if p["doc"] != "none" else f"    p{k + 1}")
                 L.append(f"        Parameter {k + 1}.")
             L.append("")
-        if res["doc"] != "none":
+        if res2 is not None and res2["hint"] != "absent":
+            L += ["    Returns", "    -------", f"    r1 : {PYT[res['doc']]}", "        First result.", f"    r2 : {PYT[res2['doc']]}", "        Second result.", ""]
+        elif res["doc"] != "none":
             L += ["    Returns", "    -------", f"    {PYT[res['doc']]}", "        The result.", ""]
     elif style == "GOOGLE":
         if params:
@@ -46,10 +48,14 @@ def docstring(style, params, res) -> str:
 
 def concretise(style, shapes) -> str:
     out = ["from __future__ import annotations", ""]
-    for idx, (params, res) in enumerate(shapes):
+    for idx, (params, res, res2) in enumerate(shapes):
+        two = res2["hint"] != "absent"
+        if two and style != "NUMPYDOC":
+            out.append(f"def f{idx}() -> int:\n    ...\n\n")          # placeholder: two-result shapes exist for NumPy style only
+            continue
         ps = ", ".join(f"p{k + 1}" + (f": {PYT[p['hint']]}" if p["hint"] != "none" else "") for k, p in enumerate(params))
-        ret = f" -> {PYT[res['hint']]}" if res["hint"] != "none" else ""
-        out.append(f"def f{idx}({ps}){ret}:\n{docstring(style, params, res)}\n    ...\n\n")
+        ret = f" -> tuple[{PYT[res['hint']]}, {PYT[res2['hint']]}]" if two else (f" -> {PYT[res['hint']]}" if res["hint"] != "none" else "")
+        out.append(f"def f{idx}({ps}){ret}:\n{docstring(style, params, res, res2)}\n    ...\n\n")
     return "\n".join(out)
 
 
@@ -57,7 +63,7 @@ def main(v: Verdict) -> None:
     scs = generate(v, "Reconcile", "C14_MC.cfg", min_records=1000)
     if not scs:
         return
-    shapes_key = sorted({json.dumps([sc["params"], sc["res"]], sort_keys=True) for sc in scs})
+    shapes_key = sorted({json.dumps([sc["params"], sc["res"], sc["res2"]], sort_keys=True) for sc in scs})
     shapes = [tuple(json.loads(k)) for k in shapes_key]
     index = {k: i for i, k in enumerate(shapes_key)}
     jobs, meta = [], []
@@ -89,7 +95,7 @@ def main(v: Verdict) -> None:
         if key not in by:
             continue
         r, stubs, counts = by[key]
-        idx = index[json.dumps([sc["params"], sc["res"]], sort_keys=True)]
+        idx = index[json.dumps([sc["params"], sc["res"], sc["res2"]], sort_keys=True)]
         tops = stubs.top(f"f{idx}")
         if len(tops) != 1 or tops[0][1].kind != "fun":
             o = {"missing": True, "ptys": [], "rtys": [], "nwarn": 0}
@@ -105,14 +111,14 @@ def main(v: Verdict) -> None:
                 da = sha(json.dumps(sorted(a[0].files.items())))
                 db = sha(json.dumps(sorted(b[0].files.items())))
                 obs.append({"id": f"pair-{style}-{pref}", "kind": "pair",
-                            "sc": {"params": [], "res": {"hint": "none", "doc": "none"}, "style": style, "pref": pref, "warn": "WARN"},
+                            "sc": {"params": [], "res": {"hint": "none", "doc": "none"}, "res2": {"hint": "absent", "doc": "absent"}, "style": style, "pref": pref, "warn": "WARN"},
                             "obs": {"a": da, "b": db}})
     bad = judge(v, "C14_Trace", obs)
     by_id = {o["id"]: o for o in obs}
     for b in bad:
         o = by_id.get(b.get("subject"))
         if o and o["kind"] == "fn":
-            b["python"] = concretise(o["sc"]["style"], [(o["sc"]["params"], o["sc"]["res"])])
+            b["python"] = concretise(o["sc"]["style"], [(o["sc"]["params"], o["sc"]["res"], o["sc"]["res2"])])
             b["options"] = {k: o["sc"][k] for k in ("style", "pref", "warn")}
     v.add_bad(bad)
     v.samples = [{"scenario": o["sc"], "observed": o["obs"]} for o in obs[:: max(1, len(obs) // 3)]][:3]
